@@ -11,6 +11,7 @@ package c19
 import (
 	"bytes"
 	"encoding/binary"
+	"errors"
 	"fmt"
 	"io"
 	"log"
@@ -53,6 +54,10 @@ type Case struct {
 	Merge   []int        `json:"merge"`
 	Cmd     int          `json:"cmd"`  // index into the request commands of dict.Default
 	Late    bool         `json:"late"` // feed after the reader has parked instead of before the loop starts
+	// Aborted > 0: before this association another one, in the same process, dies of a read error in
+	// the middle of a message while that many of this case's streams hold complete, undelivered
+	// messages in their buffers. Nothing of it may show in the association under test.
+	Aborted int `json:"aborted,omitempty"`
 }
 
 const (
@@ -258,9 +263,43 @@ func label(tag []byte) string {
 	return fmt.Sprintf("(stream %d, seq %d)", binary.BigEndian.Uint16(tag), binary.BigEndian.Uint16(tag[2:]))
 }
 
+// runAborted plays the association that dies before the one under test starts.
+func runAborted(c *Case) {
+	be := memnet.NewSCTP()
+	sh := newShell(be)
+	defer sh.release()
+	dead := func(id uint16, seq int) []byte {
+		return refcodec.EncodeMessage(refcodec.Header{Version: 1, Flags: 0x80, Code: 280, HopByHop: 0xdd000000 | uint32(id), EndToEnd: 0xdd000000 | uint32(seq)},
+			[]*refcodec.Node{{Code: tagCode, Flags: tagFlags, Payload: bytes.Repeat([]byte{0xdd}, 36)}}, false)
+	}
+	first := dead(40, 0)
+	chunks := []memnet.Chunk{{Stream: 40, Data: first[:28]}}
+	for i := 0; i < c.Aborted && i < len(c.Streams); i++ {
+		chunks = append(chunks, memnet.Chunk{Stream: c.Streams[i].ID, Data: append(dead(c.Streams[i].ID, 1), dead(c.Streams[i].ID, 2)...)})
+	}
+	be.Feed(chunks...)
+	be.FeedErr(errors.New("connection reset by peer"))
+	mux := diam.NewServeMux()
+	mux.HandleFunc("ALL", func(diam.Conn, *diam.Message) {})
+	if _, err := diam.NewConn(diam.NewVerifSCTPConn(sh), "", mux, dict.Default); err != nil {
+		be.Close()
+		return
+	}
+	if !be.WaitClosed(deadline) {
+		be.Close()
+	}
+	select {
+	case <-mux.ErrorReports():
+	default:
+	}
+}
+
 func runCase(c Case) *ev.Failure {
 	if err := c.validate(); err != nil {
 		return ev.Failf("harness-case", "inconsistent case: %v", err)
+	}
+	if c.Aborted > 0 {
+		runAborted(&c)
 	}
 	be := memnet.NewSCTP()
 	sh := newShell(be)
@@ -571,6 +610,9 @@ func classify(c Case) (bool, []string) {
 		return false, []string{"invalid"}
 	}
 	cl := map[string]bool{}
+	if c.Aborted > 0 {
+		cl["after-an-association-that-died-mid-message"] = true
+	}
 	// merged position of every chunk of every stream
 	pos := make([][]int, len(c.Streams))
 	for n, k := range c.Merge {
@@ -812,6 +854,9 @@ func genCuts(t *rapid.T, lens []int) []int {
 
 func genCase(t *rapid.T) Case {
 	c := Case{Cmd: rapid.IntRange(0, len(requestCmds())-1).Draw(t, "cmd"), Late: rapid.IntRange(0, 3).Draw(t, "late") == 0}
+	if rapid.IntRange(0, 5).Draw(t, "after-an-aborted-association") == 0 {
+		c.Aborted = rapid.IntRange(1, 6).Draw(t, "aborted-streams")
+	}
 	var n int
 	switch k := rapid.IntRange(0, 9).Draw(t, "streams-class"); {
 	case k < 1:
@@ -1029,6 +1074,7 @@ const rule = "scenario = 1..16 streams (ids 0..15), per stream 0..6 request mess
 	"all chunks then EOF are fed to the in-memory SCTP backend (before the loop starts, or once its reader is parked) and consumed by diam.NewConn's own loop; the handler records " +
 	"(MessageStream, header, payload) and replies with Answer(2001)+label via WriteTo. Demanded: every delivery is byte-for-byte a sent message, reported on its origin stream; per stream all messages, " +
 	"once, in order; exactly one reply per message recorded by the backend on the origin stream with the Diameter PPID; the loop closes the transport after EOF. " +
+	"1 in 6 cases another association of the same process has died of a read error in mid-message just before, with complete messages still buffered for 1..6 of the case's stream numbers: nothing of it may show. " +
 	"non-trivial = >= 2 streams carrying messages and >= 1 message between whose first and last chunk a chunk of another stream arrives"
 
 var prop = ev.Register(&ev.Prop[Case]{
